@@ -27,6 +27,8 @@ pub fn run_check(prop: &str, tier: Tier, seed: u64) -> i32 {
         "C15" => c15(tier, seed),
         "C03" => c03(tier, seed),
         "C05" => c05(tier, seed),
+        "C18" => c18(tier, seed),
+        "C09" => c09(tier, seed),
         other => harness_error(&format!("no check registered for {other}")),
     }
 }
@@ -39,6 +41,8 @@ pub fn replay(doc: &J) -> i32 {
         "C14" | "C15" => crate::driver::replay::<StoreScenario>(doc),
         "C03" => crate::driver::replay::<TrajScenario>(doc),
         "C05" => crate::driver::replay::<FaultScenario>(doc),
+        "C18" => crate::driver::replay::<crate::props_mclmc::MclmcScenario>(doc),
+        "C09" => crate::driver::replay::<crate::props_sched_adapt::WindowScenario>(doc),
         other => harness_error(&format!("replay: unknown property {other}")),
     }
 }
@@ -503,5 +507,73 @@ fn c05(tier: Tier, seed: u64) -> i32 {
         "base runs are sampled; positions within a base run are enumerated".into(),
         "a recoverable-class fault during set_position may make it return Ok or Err (both accepted), never panic".into(),
         "MCLMC with dynamic step size may retry instead of diverging".into(),
+    ], json!({}))
+}
+
+fn c18(tier: Tier, seed: u64) -> i32 {
+    use crate::props_mclmc::MclmcScenario;
+    let mut ctx = Ctx::new("C18", tier, seed);
+    let n = ctx.n(4000, 400_000);
+    let opts = SwarmOpts { presets: crate::swarm::MCLMC_PRESETS.to_vec(), allow_tune0: true, max_tune: 30, max_draws: 12, max_dim: 20, ..Default::default() };
+    ctx.run_batch("swarm", "three MCLMC presets (Flow with the stub flow) x dimension 2..20 x L, subsample_frequency, step size, three trajectory kinds, switch fraction, dynamic_step_size on/off x targets (incl. funnel: natural divergences and retries); every ESH update / normalisation seen at the SimMath seam is compared with the closed form; history: step count = max(1, round(f*L/eps)), total integrated time = N*eps under retries, divergent draw leaves the position unchanged and is followed by a full refresh (momentum-draw count), integrator switch at the configured draw with a fresh normalised momentum; non-trivial = ESH updates were observed", n, |rs, _| {
+        let mut cfg = gen_chain_cfg(rs, &opts);
+        let mut r = Prng::sub(rs, "tweak");
+        if cfg.target.dim() < 2 {
+            cfg.target = crate::density::std_normal(2);
+            cfg.init = vec![0.1, -0.2];
+        }
+        if r.chance(0.6) {
+            // recoverable-class faults at seeded evaluation indices: divergence position within a draw,
+            // single and nested retries under dynamic step size
+            for _ in 0..r.range(1, 6) {
+                let kind = *r.pick(&[crate::density::FaultKind::RecoverableErr, crate::density::FaultKind::NanLogp, crate::density::FaultKind::EnergyJump, crate::density::FaultKind::RecoverableErr]);
+                let base = r.below(200);
+                cfg.faults.push(crate::density::Fault { at: base, kind });
+                if r.chance(0.5) {
+                    // a second failure shortly after: nested retry
+                    cfg.faults.push(crate::density::Fault { at: base + r.range(1, 3), kind });
+                }
+            }
+        }
+        MclmcScenario { cfg }
+    });
+    ctx.finish("exploration", components_engine_a_math(), vec![
+        "tolerances: unit norm 1e-12, closed-form ESH 1e-9".into(),
+        "ESH updates with a zero or non-finite gradient (after an injected fault) are skipped and counted".into(),
+    ], json!({}))
+}
+
+fn c09(tier: Tier, seed: u64) -> i32 {
+    use crate::props_sched_adapt::WindowScenario;
+    let mut ctx = Ctx::new("C09", tier, seed);
+    let n = ctx.n(4000, 400_000);
+    let presets = vec![crate::swarm::PresetKind::DiagNuts, crate::swarm::PresetKind::LowRankNuts, crate::swarm::PresetKind::DiagMclmc, crate::swarm::PresetKind::LowRankMclmc];
+    let opts = SwarmOpts { presets, allow_tune0: false, max_tune: 300, max_draws: 4, max_dim: 4, allow_hard_targets: true, ..Default::default() };
+    ctx.run_batch("swarm", "Diag/LowRank x NUTS/MCLMC x num_tune 1..300 x early_window, step_size_window, early/main switch frequency, update frequency, growth factor 1..3 x histories with every mixture of good and rejected draws (divergent / stuck draws produced by the fault injector and by hard targets); after every draw the hook-H4 counters (foreground, background, window) are checked against the window invariants: switch only with a full window and room for the next one, no missed switch, foreground-background constant between switches, geometric growth, nothing touched in the final window, first transformation change re-runs the step-size search (seen at the SimMath seam), switches rebuild the transformation; non-trivial = at least one switch", n, |rs, _| {
+        let mut cfg = gen_chain_cfg(rs, &opts);
+        let mut r = Prng::sub(rs, "tweak");
+        // keep trajectories short: the schedule is what matters
+        match &mut cfg.preset {
+            crate::chain::Preset::DiagNuts(s) => s.maxdepth = s.maxdepth.min(3),
+            crate::chain::Preset::LowRankNuts(s) => s.maxdepth = s.maxdepth.min(3),
+            _ => {}
+        }
+        // num_tune log-uniform so that long schedules with several growing windows occur
+        let nt = r.log_uniform(3.0, 300.0) as u64;
+        retune(&mut cfg, nt);
+        cfg.preset.set_num_draws(2);
+        cfg.n_calls = nt + 2;
+        if r.chance(0.5) {
+            // rejected draws: bursts of divergences
+            for _ in 0..r.range(1, 12) {
+                cfg.faults.push(crate::density::Fault { at: r.below(3000), kind: crate::density::FaultKind::RecoverableErr });
+            }
+        }
+        WindowScenario { cfg }
+    });
+    ctx.finish("exploration", components_engine_a_math(), vec![
+        "the rounding of the geometric growth is not pinned down: the next window may be floor or ceil of window*growth (at least window+1)".into(),
+        "on which non-switch draws the transformation is rebuilt (mass_matrix_update_freq) is not asserted".into(),
+        "that the final window uses the symmetric acceptance statistic is decided by C07's reference recursion".into(),
     ], json!({}))
 }
